@@ -17,6 +17,30 @@ pub(crate) fn to_lower_snake_case(value: &str) -> String {
     result
 }
 
+/// The name of the `as_<variant>()` conversion method that `#[derive(TrustfallEnumVertex)]`
+/// generates for the given enum variant.
+///
+/// The derive macro puts an underscore before *every* uppercase letter, for example: `UserID`
+/// becomes `as_user_i_d()`. This differs from [`to_lower_snake_case`] on consecutive uppercase
+/// letters, so the two must not be mixed up or the generated code won't compile.
+pub(crate) fn variant_conversion_fn_name(variant_name: &str) -> String {
+    let mut result = String::with_capacity(variant_name.len() + 3);
+    result.push_str("as_");
+    let mut last = '_';
+    for c in variant_name.chars() {
+        if c.is_uppercase() {
+            if last != '_' {
+                result.push('_');
+            }
+            result.extend(c.to_lowercase());
+        } else {
+            result.push(c);
+        }
+        last = c;
+    }
+    result
+}
+
 pub(crate) fn upper_case_variant_name(value: &str) -> String {
     let mut chars = value.chars();
     let first_char = chars.next().expect("unexpectedly got an empty string").to_ascii_uppercase();
